@@ -32,8 +32,11 @@ prop("C10", "other",
      bounded=[B.c10_pipeline, B.c10_documents])
 
 prop("C07", "other",
-     "Default/description clauses of the parser under contract (deductive) where within PyVC's reach; the end-to-end statement "
-     "(parse, JSON and executed Python serialisation carry exactly the schema's default/description) is checked by bounded enumeration.",
+     "Deductive: _serialize_element[K] carries `default` / `description` (and every other non-default keyword attribute) into the schema dict unchanged and emits no `default` "
+     "the element does not have; Element.__init__ stores every keyword argument as given; _compose_elements[AllOf|AnyOf|OneOf] returns a *new* trivial Element for no members "
+     "(so a default attached to it cannot leak into another parse), the member itself for one, a new composition of exactly the members otherwise. Not deductive: "
+     "_parse_composition / _parse_multi_typed (where the schema-level default is attached), the Python serialiser's text. Those and the end-to-end statement "
+     "(parse, JSON and executed Python serialisation carry exactly the schema's default/description) are checked by bounded enumeration.",
      bounded=[B.c07_defaults, B.c07_descriptions])
 
 prop("C09", "other",
@@ -44,8 +47,8 @@ prop("C09", "other",
 prop("C05", "other",
      'Deductive: Element.__call__[K] (no value: NotPassed without default, else the default converted as if supplied when accepted and the raw default when '
      'not, never an error; a supplied value is never replaced), Object.__new__ (same clause for model classes), '
-     'Properties.__init__/__getitem__/__contains__, _PropertyDict.required (required waived by a default), Required.from_element. Undecided: '
-     'Properties.__call__ (placeholder injection: dict merge + comprehension). Not deductive: Object.__init__ (setattr with computed names). Bounded: object '
+     'Properties.__init__/__getitem__/__contains__, _PropertyDict.required (required waived by a default), Required.from_element. Properties.__call__ '
+     '(placeholder injection through dict merge + comprehension: raises iff a member is rejected by its schema; the caller\'s dict is not written). Not deductive: Object.__init__ (setattr with computed names). Bounded: object '
      'schemas x subsets of supplied properties x valid/invalid/nested defaults, every element called with no value.',
      bounded=[B.c05_defaults])
 
@@ -65,7 +68,8 @@ prop("C13", "other",
      bounded=[B2.c13_reconfig])
 
 prop("C14", "other",
-     "Sufficient condition proved: the frame obligations of C08 (concurrent calls share only read-only state and same-value binding writes); the quantifier over "
+     "Sufficient condition proved: every contract of C08 is run under C14 too -- its frame obligations say that concurrent calls share only read-only state and same-value binding writes "
+     "(a write to a caller-owned object, such as renaming the enclosing property in place, fails `<function>/frame` on every run); the quantifier over "
      "interleavings is discharged by a stated meta-argument (CPython attribute loads/stores are atomic), not enumerated. Bounded: thread smoke test.",
      bounded=[B2.c14_threads],
      assumptions=["memory model: CPython attribute loads and stores are atomic and sequentially consistent"])
@@ -123,12 +127,16 @@ prop("C02", "other",
      bounded=[B3.c02_generated, B3.c12_titles])
 
 prop("C03", "other",
-     "_serialize_element/serialize_json contracts where in reach; bounded: DSL trees (shared classes, several roots, caller definitions, class extended after a first serialisation) "
+     "Deductive: _serialize_element[Element|String|Integer|Array], at the point where the keyword dict is handed to the recursive serialiser: every declared property sits under its JSON "
+     "name, every required property's JSON name and the element's own `required` entries are listed, every keyword attribute that differs from its constructor default is "
+     "carried under its own name unchanged, `default` appears exactly when the element has one (reach clauses, with a native twin evaluated by a trace hook). get_children/_get_path "
+     "(C11) give the reachable classes. Not deductive: _serialize_recursive ($ref substitution), serialize_json's definitions assembly, composition / Not / object-class elements. Bounded: DSL trees (shared classes, several roots, caller definitions, class extended after a first serialisation) "
      "x values against an independent Draft-6 oracle evaluating the serialised document with its $refs.",
      bounded=[B3.c03_json])
 
 prop("C06", "other",
-     "Round-trip lemma over parser/serialiser contracts is not within reach of the discharged obligations yet; bounded: JSON round trip (twice) and executed Python source on the schema enumeration.",
+     "Deductive: the serialiser half only (the _serialize_element clauses of C03) and _compose_elements; a round-trip lemma needs parser contracts (_parse_typed, _parse_composition) that are outside "
+     "the subset, so the identity itself is decided by enumeration. Bounded: JSON round trip (twice) and executed Python source on the schema enumeration.",
      bounded=[B3.c06_roundtrip])
 
 NOT_YET = {}
